@@ -28,6 +28,7 @@ LEVEL_TEXT = (
     "needed, so 61-state codon and 20-state protein models are covered at full size. Sampled over problems; every "
     "internal node is tried as the new root for each reversible problem."
     " Problems are drawn under every expm setting."
+    " Relations are repeated with motif probabilities estimated from the alignment, and once per run on an alignment with more than 32767 distinct site patterns below one node."
 )
 LEVEL_NOTE = "trusted: the harness's own tree surgery (nested lists); tolerance rtol 1e-9 (1e-6 for >16 states)"
 TECHNIQUE = "runtime monitoring: relational (metamorphic) monitor over pairs of real executions"
